@@ -2,7 +2,6 @@ package main
 
 import (
 	"fmt"
-	"go/types"
 	"strings"
 )
 
@@ -57,7 +56,7 @@ func checkC15(c *Ctx, r *Report) {
 		freshResultObligations(r, p, eff)
 		r.Floor("fresh_result_obligations", 30)
 	}
-	X1, Y1, Z1, X2, Y2, Z2, B := polyVar(0), polyVar(1), polyVar(2), polyVar(3), polyVar(4), polyVar(5), polyVar(6)
+
 
 	// sm2B must be the curve's b
 	bObj := pk.Types.Scope().Lookup("sm2B")
@@ -73,122 +72,9 @@ func checkC15(c *Ctx, r *Report) {
 	}
 	r.Check(bv.k == fElem && bv.big.Cmp(bcurve) == 0, "FORMULA-CONSTANT", "sm2/internal.sm2B is the curve parameter b", "sm2/internal/sm2_point.go", "folded initialiser = "+bv.String())
 
-	eval := func(name string, nIn int) (*slEval, map[string]*Poly, string) {
-		fd := findFuncDecl(pk, "SM2Point", name)
-		if fd == nil || fd.Body == nil {
-			r.Fatalf("unresolved anchor: (*SM2Point).%s", name)
-			return nil, nil, ""
-		}
-		recv := pk.TypesInfo.Defs[fd.Recv.List[0].Names[0]]
-		var params []types.Object
-		for _, fl := range fd.Type.Params.List {
-			for _, n := range fl.Names {
-				params = append(params, pk.TypesInfo.Defs[n])
-			}
-		}
-		if len(params) != nIn {
-			r.Fatalf("(*SM2Point).%s: expected %d point parameters, found %d", name, nIn, len(params))
-			return nil, nil, ""
-		}
-		ev := &slEval{p: p, pk: pk, dom: polyDomain{}, vars: map[types.Object]*slCell{}, fields: map[string]*slCell{}, globals: map[types.Object]*slCell{}, outFields: map[string]bool{}, inputRecvs: map[types.Object]bool{}, outRecv: recv}
-		inVars := [][3]*Poly{{X1, Y1, Z1}, {X2, Y2, Z2}}
-		for _, pr := range params {
-			ev.inputRecvs[pr] = true
-		}
-		ev.fieldInit = func(obj types.Object, field string) (interface{}, bool) {
-			idx := map[string]int{"x": 0, "y": 1, "z": 2}
-			k, ok := idx[field]
-			if !ok {
-				return nil, false
-			}
-			for i, pr := range params {
-				if obj == pr {
-					return inVars[i][k], true
-				}
-			}
-			if obj == recv {
-				// receiver field: an output cell; its prior content must never be read (it may alias an operand, whose reads go through the operand)
-				return polyZero(), true
-			}
-			return nil, false
-		}
-		ev.globalInit = func(obj types.Object) (interface{}, bool) {
-			if obj == bObj {
-				return B, true
-			}
-			return nil, false
-		}
-		ev.run(fd.Body)
-		out := map[string]*Poly{}
-		for _, fld := range []string{"x", "y", "z"} {
-			key := fd.Recv.List[0].Names[0].Name + "." + fld
-			if c, ok := ev.fields[key]; ok && ev.outFields[fld] {
-				out[fld], _ = c.val.(*Poly)
-			}
-		}
-		return ev, out, p.Pos(fd.Pos())
-	}
-
-	// ---- Add
-	if ev, out, pos := eval("Add", 2); ev != nil {
-		key := "sm2/internal.(*SM2Point).Add"
-		r.Count("field_ops", ev.ops)
-		if len(ev.undecided) > 0 {
-			r.Undecided("FORMULA-IDENTITY", key, pos, strings.Join(ev.undecided, "; "))
-		} else {
-			wx, wy, wz := rcbLaw(X1, Y1, Z1, X2, Y2, Z2, B)
-			for _, t := range []struct {
-				n string
-				w *Poly
-			}{{"x", wx}, {"y", wy}, {"z", wz}} {
-				g := out[t.n]
-				r.Check(g != nil && g.Equal(t.w), "FORMULA-IDENTITY", key+" "+strings.ToUpper(t.n)+"3", pos, fmt.Sprintf("computed polynomial equals the complete a=-3 addition law (difference: %s)", diffStr(g, t.w)))
-			}
-			r.Check(len(ev.lateInputRead) == 0, "ALIAS-SAFETY", key, pos, "no operand coordinate is read after the same receiver coordinate was written"+ifs(len(ev.lateInputRead) > 0, ": "+strings.Join(ev.lateInputRead, "; ")))
-		}
-	}
-	// ---- Double
-	if ev, out, pos := eval("Double", 1); ev != nil {
-		key := "sm2/internal.(*SM2Point).Double"
-		r.Count("field_ops", ev.ops)
-		if len(ev.undecided) > 0 {
-			r.Undecided("FORMULA-IDENTITY", key, pos, strings.Join(ev.undecided, "; "))
-		} else {
-			wx, wy, wz := rcbLaw(X1, Y1, Z1, X1, Y1, Z1, B)
-			z8 := polyConst(8).Mul(Y1).Mul(Y1).Mul(Y1).Mul(Z1)
-			r.Check(out["x"] != nil && out["x"].Equal(wx), "FORMULA-IDENTITY", key+" X3", pos, "equals the addition law at P2=P1 (difference: "+diffStr(out["x"], wx)+")")
-			r.Check(out["y"] != nil && out["y"].Equal(wy), "FORMULA-IDENTITY", key+" Y3", pos, "equals the addition law at P2=P1 (difference: "+diffStr(out["y"], wy)+")")
-			r.Check(out["z"] != nil && out["z"].Equal(z8), "FORMULA-IDENTITY", key+" Z3", pos, "equals 8*Y^3*Z (difference: "+diffStr(out["z"], z8)+")")
-			// checker-side identity: Z_add(P,P) - 8Y^3Z = 6Y (X^3 - 3XZ^2 + bZ^3 - Y^2 Z): zero on the curve
-			curve := X1.Mul(X1).Mul(X1).Sub(polyConst(3).Mul(X1).Mul(Z1).Mul(Z1)).Add(B.Mul(Z1).Mul(Z1).Mul(Z1)).Sub(Y1.Mul(Y1).Mul(Z1))
-			r.Check(wz.Sub(z8).Equal(polyConst(6).Mul(Y1).Mul(curve)), "FORMULA-IDENTITY", "Z_add(P,P) - 8Y^3Z is a multiple of the curve equation", pos, "checker-side identity: the doubling Z agrees with the addition law on the curve")
-			r.Check(len(ev.lateInputRead) == 0, "ALIAS-SAFETY", key, pos, "no operand coordinate is read after the same receiver coordinate was written"+ifs(len(ev.lateInputRead) > 0, ": "+strings.Join(ev.lateInputRead, "; ")))
-		}
-	}
-	// ---- Negate
-	if ev, out, pos := eval("Negate", 1); ev != nil {
-		key := "sm2/internal.(*SM2Point).Negate"
-		if len(ev.undecided) > 0 {
-			r.Undecided("FORMULA-IDENTITY", key, pos, strings.Join(ev.undecided, "; "))
-		} else {
-			ok := out["x"] != nil && out["y"] != nil && out["z"] != nil && out["x"].Equal(X1) && out["y"].Equal(Y1.Neg()) && out["z"].Equal(Z1)
-			r.Check(ok, "FORMULA-IDENTITY", key, pos, "(X, -Y, Z)")
-			// Negate(q, q): coordinate-wise, each written field is read before (same coordinate) - safe; other orders are not
-			r.Check(len(ev.lateInputRead) == 0, "ALIAS-SAFETY", key, pos, "no operand coordinate is read after the same receiver coordinate was written"+ifs(len(ev.lateInputRead) > 0, ": "+strings.Join(ev.lateInputRead, "; ")))
-		}
-	}
-	// ---- Set / Select are field-wise
-	if ev, out, pos := eval("Set", 1); ev != nil {
-		key := "sm2/internal.(*SM2Point).Set"
-		if len(ev.undecided) > 0 {
-			r.Undecided("FORMULA-IDENTITY", key, pos, strings.Join(ev.undecided, "; "))
-		} else {
-			ok := out["x"] != nil && out["y"] != nil && out["z"] != nil && out["x"].Equal(X1) && out["y"].Equal(Y1) && out["z"].Equal(Z1)
-			r.Check(ok, "FORMULA-IDENTITY", key, pos, "(X, Y, Z)")
-		}
-	}
+	c15Formulas(r, p)
 	c15More(c, r, p, f)
-	r.Floor("field_ops", 80)
+	r.Floor("formula_runs", 11)
 }
 
 func diffStr(g, w *Poly) string {
@@ -196,4 +82,166 @@ func diffStr(g, w *Poly) string {
 		return "coordinate never written"
 	}
 	return g.Sub(w).String()
+}
+
+// ptToPoly: a field-element term of the protocol domain as a polynomial in the operands' coordinates and b
+func ptToPoly(t *pt, vars map[string]*Poly) (*Poly, error) {
+	switch t.op {
+	case "c":
+		if !t.n.IsInt64() {
+			return nil, fmt.Errorf("constant %s", t.n)
+		}
+		return polyConst(t.n.Int64()), nil
+	case "param":
+		if v, ok := vars[t.s]; ok {
+			return v, nil
+		}
+		return nil, fmt.Errorf("the result depends on %s, which is not a coordinate of an operand", t.s)
+	case "B":
+		return vars["B"], nil
+	case "modP":
+		return ptToPoly(t.args[0], vars)
+	case "add", "mul":
+		a, err := ptToPoly(t.args[0], vars)
+		if err != nil {
+			return nil, err
+		}
+		b, err := ptToPoly(t.args[1], vars)
+		if err != nil {
+			return nil, err
+		}
+		if t.op == "add" {
+			return a.Add(b), nil
+		}
+		return a.Mul(b), nil
+	}
+	return nil, fmt.Errorf("the result contains %s, which is not field arithmetic on the operands", trunc(t.String(), 60))
+}
+
+// c15Formulas: (*SM2Point).Add, Double, Negate and Set are interpreted in the protocol domain (SSA, calls followed, the
+// fiat element methods by contract) for every way the receiver and the operands can be the same object; the
+// coordinates the receiver holds afterwards must be the required polynomials in the operands' coordinates.
+func c15Formulas(r *Report, p *Prog) {
+	B := polyVar(6)
+	type cfg struct {
+		name  string
+		alias map[int]int
+	}
+	run := func(name string, nOps int, a cfg, want func(in [][3]*Poly) ([3]*Poly, [3]string)) {
+		key := "sm2/internal.(*SM2Point)." + name
+		fn := p.MustFunc(r, key)
+		if fn == nil {
+			return
+		}
+		pos := p.Pos(fn.Pos())
+		ikey := key + " [" + a.name + "]"
+		if len(fn.Params) != nOps+1 {
+			r.Viol("FORMULA-IDENTITY", ikey, pos, fmt.Sprintf("expected a receiver and %d point operands", nOps))
+			return
+		}
+		e, outs := protoRunFull(p, fn, true, nil, nil, a.alias)
+		r.Count("formula_runs", 1)
+		if len(e.errs) > 0 || len(e.panics) > 0 || len(e.precond) > 0 || len(outs) != 1 {
+			r.Viol("FOLLOWED", ikey, pos, fmt.Sprintf("the function cannot be followed in the protocol domain (%d outcomes): %s", len(outs), strings.Join(append(append(append([]string{}, e.errs...), e.panics...), e.precond...), "; ")))
+			return
+		}
+		o := outs[0]
+		rep := func(i int) int {
+			for {
+				j, ok := a.alias[i]
+				if !ok {
+					return i
+				}
+				i = j
+			}
+		}
+		// variables: object of operand k (k = 1..nOps) holds (X_k, Y_k, Z_k)
+		vars := map[string]*Poly{"B": B}
+		var in [][3]*Poly
+		objVars := map[int][3]*Poly{}
+		next := 0
+		for k := 1; k <= nOps; k++ {
+			ri := rep(k)
+			v, ok := objVars[ri]
+			if !ok {
+				v = [3]*Poly{polyVar(next), polyVar(next + 1), polyVar(next + 2)}
+				next += 3
+				objVars[ri] = v
+				for ci, cn := range []string{"x", "y", "z"} {
+					vars[fn.Params[ri].Name()+"0."+cn] = v[ci]
+				}
+			}
+			in = append(in, v)
+		}
+		recv, ok := e.rootArgs[0].(sPtr)
+		var got [3]*Poly
+		var why string
+		if ok {
+			if obj, ok := o.st.heap[recv.id].(*hArray); ok && len(obj.elems) == 3 {
+				for i := range got {
+					h := e.proto.obj(o.st, obj.elems[i])
+					if h == nil || h.t == nil {
+						why = "a coordinate of the receiver has no known value"
+						break
+					}
+					g, err := ptToPoly(h.t, vars)
+					if err != nil {
+						why = err.Error()
+						break
+					}
+					got[i] = g
+				}
+			} else {
+				why = "the receiver is not a point object"
+			}
+		} else {
+			why = "the receiver is not a point object"
+		}
+		// the result is the receiver
+		retOK := len(o.vals) == 1
+		if retOK {
+			rp, isP := o.vals[0].(sPtr)
+			retOK = isP && ok && rp.id == recv.id
+		}
+		w, desc := want(in)
+		for i, cn := range []string{"X3", "Y3", "Z3"} {
+			if why != "" {
+				r.Viol("FORMULA-IDENTITY", ikey+" "+cn, pos, desc[i]+": "+why)
+				continue
+			}
+			r.Check(got[i].Equal(w[i]), "FORMULA-IDENTITY", ikey+" "+cn, pos, desc[i]+" (difference: "+trunc(got[i].Sub(w[i]).String(), 200)+")")
+		}
+		r.Check(retOK, "FORMULA-RESULT", ikey, pos, "the method returns its receiver")
+	}
+	addLaw := func(in [][3]*Poly) ([3]*Poly, [3]string) {
+		x, y, z := rcbLaw(in[0][0], in[0][1], in[0][2], in[1][0], in[1][1], in[1][2], B)
+		d := "the receiver's coordinate equals the complete a=-3 addition law of the operands"
+		return [3]*Poly{x, y, z}, [3]string{d, d, d}
+	}
+	dblLaw := func(in [][3]*Poly) ([3]*Poly, [3]string) {
+		X1, Y1, Z1 := in[0][0], in[0][1], in[0][2]
+		x, y, _ := rcbLaw(X1, Y1, Z1, X1, Y1, Z1, B)
+		z8 := polyConst(8).Mul(Y1).Mul(Y1).Mul(Y1).Mul(Z1)
+		return [3]*Poly{x, y, z8}, [3]string{"equals the addition law at P2=P1", "equals the addition law at P2=P1", "equals 8*Y^3*Z"}
+	}
+	negLaw := func(in [][3]*Poly) ([3]*Poly, [3]string) {
+		return [3]*Poly{in[0][0], in[0][1].Neg(), in[0][2]}, [3]string{"X", "-Y", "Z"}
+	}
+	setLaw := func(in [][3]*Poly) ([3]*Poly, [3]string) {
+		return [3]*Poly{in[0][0], in[0][1], in[0][2]}, [3]string{"X", "Y", "Z"}
+	}
+	for _, a := range []cfg{{"q, p1, p2 distinct", nil}, {"q is p1", map[int]int{1: 0}}, {"q is p2", map[int]int{2: 0}}, {"p1 is p2", map[int]int{2: 1}}, {"q, p1, p2 the same", map[int]int{1: 0, 2: 0}}} {
+		run("Add", 2, a, addLaw)
+	}
+	for _, a := range []cfg{{"q, p distinct", nil}, {"q is p", map[int]int{1: 0}}} {
+		run("Double", 1, a, dblLaw)
+		run("Negate", 1, a, negLaw)
+		run("Set", 1, a, setLaw)
+	}
+	// checker-side identity: Z_add(P,P) - 8Y^3Z = 6Y (X^3 - 3XZ^2 + bZ^3 - Y^2 Z): zero on the curve
+	X1, Y1, Z1 := polyVar(0), polyVar(1), polyVar(2)
+	_, _, wz := rcbLaw(X1, Y1, Z1, X1, Y1, Z1, B)
+	z8 := polyConst(8).Mul(Y1).Mul(Y1).Mul(Y1).Mul(Z1)
+	curve := X1.Mul(X1).Mul(X1).Sub(polyConst(3).Mul(X1).Mul(Z1).Mul(Z1)).Add(B.Mul(Z1).Mul(Z1).Mul(Z1)).Sub(Y1.Mul(Y1).Mul(Z1))
+	r.Check(wz.Sub(z8).Equal(polyConst(6).Mul(Y1).Mul(curve)), "FORMULA-IDENTITY", "Z_add(P,P) - 8Y^3Z is a multiple of the curve equation", "sm2/internal/sm2_point.go", "checker-side identity: the doubling Z agrees with the addition law on the curve")
 }
